@@ -289,15 +289,49 @@ theorem handleDmrRequest_no_overflow (cfg : Cfg) {s : Store} (hinv : Inv s) (a :
 def completes : Input → Addr → Bool
   | .datagram a' data f, a => decide (a' = a) && regOk data f
   | .setOut _ _, _ => false
+  | .envPatch _ _ _, _ => false
+
+/-- what the theorems assume of the environment: the application never patches `id`, `address_in` (the
+preconditions of C20) or the is-registered key itself (authorising a repeater is the handler's business);
+every other member and every other attribute name — however close to the key — is allowed -/
+def envOk : Input → Bool
+  | .envPatch _ key _ => key != .field .id && key != .field .addressIn && key != .dyn regKey
+  | _ => true
 
 theorem reg_of_recOf_eq {s s' : Store} {a : Addr} (h : s'.recOf a.val = s.recOf a.val) : reg s' a = reg s a := by
   simp only [reg, h]
 
 theorem newRec_attr (n : Nat) (a : Val) (k : String) : (newRec n a).attr k = .none := rfl
 
-theorem step_spec (cfg : Cfg) {s : Store} (h : Inv s) (i : Input) :
+theorem step_spec (cfg : Cfg) {s : Store} (h : Inv s) (i : Input) (hi : envOk i = true) :
     Inv (step cfg s i).1 ∧ ∀ a, reg (step cfg s i).1 a = (reg s a || completes i a) := by
   cases i with
+  | envPatch a' key v =>
+    simp only [envOk, Bool.and_eq_true, bne_iff_ne, ne_eq] at hi
+    obtain ⟨⟨hid, hain⟩, hkey⟩ := hi
+    have hp : SafePatch [(key, v)] := by
+      intro e he
+      simp only [List.mem_singleton] at he
+      subst he
+      exact ⟨hid, hain⟩
+    obtain ⟨hinv, _, hmap, _⟩ := matchIncoming_auto_spec h a'.val [(key, v)] hp
+    refine ⟨hinv, ?_⟩
+    intro a
+    simp only [step, completes, Bool.or_false]
+    have hstep : Storage.step s (.matchIncoming a'.val true [(key, v)]) =
+      s.matchIncoming a'.val true [(key, v)] := rfl
+    rw [hstep]
+    simp only [reg, hmap a.val]
+    by_cases hax : a.val = a'.val
+    · simp only [hax, if_true]
+      have : (applyPatch [(key, v)] ((s.recOf a'.val).getD (newRec s.objs.length a'.val))).attr regKey
+          = ((s.recOf a'.val).getD (newRec s.objs.length a'.val)).attr regKey :=
+        applyPatch_attr_unnamed _ _ _ (by intro e he; simp only [List.mem_singleton] at he; subst he; exact hkey)
+      rw [this]
+      cases s.recOf a'.val with
+      | none => rfl
+      | some r => rfl
+    · simp only [hax, if_false]
   | setOut a' out =>
     have hp : SafePatch [(Key.field .addressOut, out)] := by
       intro e he
@@ -378,14 +412,15 @@ theorem runFrom_cons (cfg : Cfg) (s : Store) (i : Input) (t : List Input) :
     runFrom cfg s (i :: t) =
       ((runFrom cfg (step cfg s i).1 t).1, ((step cfg s i).2.1, (step cfg s i).2.2) :: (runFrom cfg (step cfg s i).1 t).2) := rfl
 
-theorem runFrom_spec (cfg : Cfg) {s : Store} (h : Inv s) (hist : List Input) :
+theorem runFrom_spec (cfg : Cfg) {s : Store} (h : Inv s) (hist : List Input) (henv : hist.all envOk = true) :
     Inv (runFrom cfg s hist).1 ∧
     ∀ a, reg (runFrom cfg s hist).1 a = (reg s a || hist.any (fun i => completes i a)) := by
   induction hist generalizing s with
   | nil => exact ⟨h, fun a => by simp [runFrom]⟩
   | cons i t ih =>
-    obtain ⟨h1, hr1⟩ := step_spec cfg h i
-    obtain ⟨h2, hr2⟩ := ih h1
+    simp only [List.all_cons, Bool.and_eq_true] at henv
+    obtain ⟨h1, hr1⟩ := step_spec cfg h i henv.1
+    obtain ⟨h2, hr2⟩ := ih h1 henv.2
     rw [runFrom_cons]
     refine ⟨h2, fun a => ?_⟩
     simp only [hr2 a, hr1 a, List.any_cons, Bool.or_assoc]
@@ -395,9 +430,9 @@ theorem reg_init (a : Addr) : reg Storage.init a = false := rfl
 /-- a registration from `a` completed somewhere in the history -/
 def registeredIn (hist : List Input) (a : Addr) : Bool := hist.any (fun i => completes i a)
 
-theorem run_spec (cfg : Cfg) (hist : List Input) :
+theorem run_spec (cfg : Cfg) (hist : List Input) (henv : hist.all envOk = true) :
     Inv (run cfg hist).1 ∧ ∀ a, reg (run cfg hist).1 a = registeredIn hist a := by
-  obtain ⟨h1, h2⟩ := runFrom_spec cfg inv_init hist
+  obtain ⟨h1, h2⟩ := runFrom_spec cfg inv_init hist henv
   refine ⟨h1, fun a => ?_⟩
   rw [run, h2 a, reg_init, Bool.false_or, registeredIn]
 
